@@ -196,6 +196,27 @@ var deb822Impl = map[string]core.Adapter{
 		}
 		return "ok"
 	},
+	// law: a document ending in a line of a given size is read completely: the last paragraph
+	// holds, under `key`, a value with exactly `count` bytes 'x'.  args: text, key, count
+	"law-d822tail": func(a []string) string {
+		ps, err := readAllParas(core.MustUnHex(a[0]))
+		key := core.MustUnHex(a[1])
+		want, _ := strconv.Atoi(a[2])
+		if err != nil {
+			return "FAIL rejected: " + err.Error()
+		}
+		if len(ps) == 0 {
+			return "FAIL no paragraph at all"
+		}
+		v, ok := ps[len(ps)-1].Values[key]
+		if !ok {
+			return fmt.Sprintf("FAIL the last paragraph has no field %q (it lists %q)", key, ps[len(ps)-1].Order)
+		}
+		if got := strings.Count(v, "x"); got != want {
+			return fmt.Sprintf("FAIL field %q holds %d of the %d bytes written on its last line", key, got, want)
+		}
+		return "ok"
+	},
 	// law: read-write-read is the identity on what the reader produced; cycles are stable;
 	// no blank line inside a written paragraph
 	"law-d822stable": func(a []string) string {
@@ -240,13 +261,21 @@ var deb822Impl = map[string]core.Adapter{
 
 func deb822Readable(op string, a []string) string {
 	switch op {
-	case "d822", "d822rw", "law-d822inv", "law-d822stable", "d822spec":
-		return fmt.Sprintf("%s(%q)", op, core.MustUnHex(a[0]))
+	case "d822", "d822rw", "law-d822inv", "law-d822stable", "d822spec", "law-d822tail":
+		return fmt.Sprintf("%s(%d bytes: %q)", op, len(core.MustUnHex(a[0])), clipMid(core.MustUnHex(a[0]), 300))
 	case "d822write", "law-d822textrt":
 		p := argKVPara(a)
 		return fmt.Sprintf("%s(%s)", op, dumpParaReadable(p))
 	}
 	return op + " " + strings.Join(a, " ")
+}
+
+// clipMid keeps the start and the end of a long text
+func clipMid(s string, n int) string {
+	if len(s) <= n {
+		return s
+	}
+	return s[:n/2] + fmt.Sprintf("...(%d bytes)...", len(s)-n) + s[len(s)-n/2:]
 }
 
 func dumpParaReadable(p control.Paragraph) string {
@@ -376,8 +405,50 @@ func genLineSoup(r *core.Rand) string {
 	return s
 }
 
+// boundaryDocs: documents whose LAST physical line has exactly the size at which a reader's
+// buffer (4096 bytes and multiples, 64 KiB) fills up, one byte less and one more, as a field
+// line or a continuation line, with and without the final newline.  (text, key, number of x)
+func boundaryDocs(g *core.G) [][3]string {
+	r := g.R
+	sizes := []int{4095, 4096, 4097, 8191, 8192, 8193}
+	big := []int{12288, 16384, 65535, 65536, 65537, 70001, 131072}
+	if g.Thorough {
+		sizes = append(sizes, big...)
+	} else {
+		sizes = append(sizes, big[r.Intn(len(big))], r.Pick2(65536, 65537), r.Pick2(70001, 131072))
+	}
+	var out [][3]string
+	for _, L := range sizes {
+		for _, nl := range []string{"", "\n", "\r\n"} {
+			for _, cont := range []bool{false, true} {
+				for _, withNL := range []bool{false, true} { // does L count the line end?
+					key := r.Pick([]string{"Description", "Binary", "Z"})
+					prefix := r.Pick([]string{"", "A: b\n\n", "A: b\n", "# comment\n"})
+					n := L
+					if withNL {
+						n -= len(nl)
+					}
+					var line string
+					if cont {
+						prefix += key + ": first\n"
+						line = " " + strings.Repeat("x", n-1)
+					} else {
+						line = key + ": " + strings.Repeat("x", n-len(key)-2)
+					}
+					out = append(out, [3]string{prefix + line + nl, key, strconv.Itoa(strings.Count(line, "x"))})
+				}
+			}
+		}
+	}
+	return out
+}
+
 func streamDeb822read(g *core.G) {
 	r := g.R
+	for _, d := range boundaryDocs(g) {
+		g.Emit("d822", core.Hex(d[0]))
+		g.Emit("law-d822tail", core.Hex(d[0]), core.Hex(d[1]), d[2])
+	}
 	for _, s := range []string{"", "\n", "A: b", "A: b\n", "A: b\n\n\nC: d\n", " orphan\nA: b\n", "A: 1\nA: 2\n", "A:\n x\n .\n y\n", "A: x\r\n y\r\n\r\nB: z\r\n",
 		"#c\nA: b\n#c\n c\n", "A\n", ":\n", "A: b\n \n", "A: b\n\t\n"} {
 		g.Emit("d822", core.Hex(s))
@@ -441,6 +512,16 @@ func genValueLines(r *core.Rand) string {
 func streamDeb822rt(g *core.G) {
 	r := g.R
 	n := g.N(3000, 150000)
+	// lines at and beyond the sizes where buffers fill up (4 KiB, 64 KiB), written and read back
+	for _, d := range boundaryDocs(g) {
+		g.Emit("d822rw", core.Hex(d[0]))
+		g.Emit("law-d822stable", core.Hex(d[0]))
+		xs, _ := strconv.Atoi(d[2])
+		val := r.Pick([]string{"", "first\n", "first\nsecond line\n"}) + strings.Repeat("x", xs) + r.Pick([]string{"", "\n", "\nlast"})
+		args := []string{"2", core.Hex(d[1]), core.Hex(val), core.Hex("Other"), core.Hex("y")}
+		g.Emit("d822write", args...)
+		g.Emit("law-d822textrt", args...)
+	}
 	for i := 0; i < n; i++ {
 		k := r.Range(1, 4)
 		args := []string{}
@@ -495,14 +576,14 @@ func init() {
 	core.Register(&core.Property{
 		ID: "C07", PropsModule: "GoDebian.Props.C07", Facts: readFacts,
 		Streams: []core.Stream{{Name: "deb822read", Gen: streamDeb822read,
-			Domain: "document models (1-3 paragraphs, 1-4 fields, first line, 0-4 continuation lines incl. empty and indented ones) rendered by the Lean specification Spec.Deb822.render under a random 64-entry choice stream (leading/trailing blank-line runs, comment lines at any line boundary, LF/CRLF per line, space or tab marker, padding after the colon, trailing blanks, final newline or not); expected paragraphs from Spec.Deb822.expectedPara; line soup (random sequences of the line kinds incl. orphans, duplicates, missing colons, Unicode blanks) and raw bytes; three entry points (All, Next loop, decode into a slice) compared with each other and with the model; invariant law on every input"}},
+			Domain: "document models (1-3 paragraphs, 1-4 fields, first line, 0-4 continuation lines incl. empty and indented ones) rendered by the Lean specification Spec.Deb822.render under a random 64-entry choice stream (leading/trailing blank-line runs, comment lines at any line boundary, LF/CRLF per line, space or tab marker, padding after the colon, trailing blanks, final newline or not); expected paragraphs from Spec.Deb822.expectedPara; line soup (random sequences of the line kinds incl. orphans, duplicates, missing colons, Unicode blanks) and raw bytes; three entry points (All, Next loop, decode into a slice) compared with each other and with the model; invariant law on every input; documents whose last line has exactly 4095/4096/4097, 8191-8193 and 64 KiB-range bytes (field or continuation line, LF / CRLF / no final newline): model vs implementation and law-d822tail (the whole line is in the value)"}},
 		Impl: deb822Impl, Readable: deb822Readable, TrustedBase: tb,
 	})
 	core.Register(&core.Property{
 		ID: "C08", PropsModule: "GoDebian.Props.C08",
 		Facts: append(append([]string{}, readFacts...), "fingerprint:control.Paragraph.WriteTo", "fingerprint:control.Encoder.encodeStruct"),
 		Streams: []core.Stream{{Name: "deb822rt", Gen: streamDeb822rt,
-			Domain: "paragraphs with values drawn from line sequences (empty lines, runs of empty lines, indented lines, trailing newline present or absent): WriteTo bytes model vs implementation, read back with the same logical lines, no blank line inside a paragraph; documents accepted by the reader (layout renderings and line soup) cycled write/read three times: paragraphs and bytes must not change"}},
+			Domain: "paragraphs with values drawn from line sequences (empty lines, runs of empty lines, indented lines, trailing newline present or absent): WriteTo bytes model vs implementation, read back with the same logical lines, no blank line inside a paragraph; documents accepted by the reader (layout renderings and line soup) cycled write/read three times: paragraphs and bytes must not change; values and documents with lines of 4 KiB and 64 KiB boundary sizes written and read back"}},
 		Impl: deb822Impl, Readable: deb822Readable, TrustedBase: tb, Classify: deb822Classify,
 	})
 }
